@@ -19,6 +19,27 @@ pub fn run_iterdestroy_exhaustive<W: WorldOps>(seed: u64, shard: u64, nshards: u
     let mut pc = ProbeCounts::default();
     let steps = [Step::Continue, Step::ContinueDestroy, Step::Break, Step::BreakDestroy];
     let mut counter = 0u64;
+    {
+        // the step enums themselves: which values destroy, and how a plain EcsStep is read
+        use gecs::prelude::{EcsStep, EcsStepDestroy};
+        let table = [
+            (EcsStepDestroy::Continue, false),
+            (EcsStepDestroy::Break, false),
+            (EcsStepDestroy::ContinueDestroy, true),
+            (EcsStepDestroy::BreakDestroy, true),
+        ];
+        for (s, d) in table {
+            if s.is_destroy() != d {
+                e.rep.violate(&["C07"], "iter-destroy", format!("EcsStepDestroy::is_destroy() is {} for a step that {}", !d, if d { "destroys" } else { "does not destroy" }));
+            }
+        }
+        if !matches!(EcsStepDestroy::from(EcsStep::Continue), EcsStepDestroy::Continue) || !matches!(EcsStepDestroy::from(EcsStep::Break), EcsStepDestroy::Break) {
+            e.rep.violate(&["C07"], "iter-destroy", "From<EcsStep> for EcsStepDestroy does not map Continue to Continue and Break to Break".into());
+        }
+        if !matches!(EcsStepDestroy::from(()), EcsStepDestroy::Continue) || !matches!(EcsStep::from(()), EcsStep::Continue) {
+            e.rep.violate(&["C07", "C06"], "iter-destroy", "From<()> for the step enums is not Continue".into());
+        }
+    }
     for shape in 0..3 {
         for n1 in 0..=nmax {
             for n2 in 0..=(nmax - n1) {
